@@ -35,7 +35,7 @@ Step ==
   \/ \E c \in ClaimIds, w \in 1..3 : Attach(c) /\ Log([op |-> "Attach", c |-> c, inplace |-> FALSE])
   \* outside mutation of the attached claims object (same object, new content): to the Evidence it is an attach
   \/ \E c \in ClaimIds, w \in 1..8 : ev.claims # "nil" /\ Attach(c) /\ Log([op |-> "Attach", c |-> c, inplace |-> TRUE])
-  \/ \E sg \in Signers, w \in 1..3 : (w = 1 \/ IsGood(sg)) /\ ev.claims # "nil" /\ SignWith(sg, FALSE) /\ Log([op |-> "Sign", sg |-> sg])
+  \/ \E sg \in Signers, w \in 1..3 : (w = 1 \/ IsGood(sg)) /\ SignWith(sg, FALSE) /\ Log([op |-> "Sign", sg |-> sg])   \* (also without claims)
   \/ \E sg \in Signers, w \in 1..3 : (w = 1 \/ IsGood(sg)) /\ ev.claims # "nil" /\ SignWith(sg, TRUE) /\ Log([op |-> "ValidateAndSign", sg |-> sg])
   \/ \E t \in SimToks : Unmarshal(t) /\ Log([op |-> "UnmarshalCOSE", t |-> t])
   \/ \E k \in Keys, w \in 1..25 : Verify(k) /\ Log([op |-> "Verify", k |-> k])
